@@ -54,7 +54,9 @@ func main() {
 		r.Rule("explicit-state search: state = edit history (sequence of uploads) reached from the initial world {children v1, parent v1}; " +
 			"transition = one upload from {touch X, touch X twice in one commit, delete X (fault if still referenced), parent edit to a menu list " +
 			"(fault if it references a deleted child; undeletes a deleted parent), touch X + parent edit and delete X + parent edit in one upload " +
-			"(pre-commit regime: child stamped threshold-before / same second / threshold-after the parent), parent delete} x gap alphabet; " +
+			"(pre-commit regime: child stamped threshold-before / same second / threshold-after the parent), parent delete, and in the spaces that say so " +
+			"a foreign-changeset version of the same child stamped inside the grouping window just before a touch+edit upload (interloper) or a foreign " +
+			"child-only touch stamped inside the skew of the previous upload (small gap)} x gap alphabet; " +
 			"every sequence up to the tier depth is visited once (DFS, a tree: different sequences are different histories) and the oracle is " +
 			"evaluated at every state: with default options and with the Threshold option (histories handed over newest-first) at every state, with " +
 			"IgnoreInconsistency at every state that holds an inconsistency, and with a withheld child history (with and without IgnoreMissingChildren), " +
@@ -120,6 +122,9 @@ func spaces(quick bool) []*Space {
 		return &Space{Space: histsim.Space{Fam: histsim.FamilyByName(fam), Regime: histsim.PreCommit, Gaps: gaps, Delta: delta, Skews: skews, Depth: depth}, ExtraDepth: depth - 1}
 	}
 	odd := func(s *Space) *Space { s.FirstVersion, s.VersionStep = 2, 3; return s }
+	// foreign edits inside the grouping window: the interloper transitions and a
+	// small gap of delta/2 (a foreign child-only touch right after an upload)
+	inter := func(s *Space) *Space { s.Interlopers = true; s.Gaps = append(s.Gaps, s.Delta/2); return s }
 	all, outer := []int{-1, 0, 1}, []int{-1, 1}
 	if quick {
 		return []*Space{
@@ -127,9 +132,9 @@ func spaces(quick bool) []*Space {
 			commit("way2r", 5, true, 100*ms),
 			pre("way2", 4, m, all, 2*h, 0),
 			odd(commit("rel3", 3, true, h, 100*ms)),
-			odd(pre("rel3", 3, 30*m, all, 2*h, 0)),
+			inter(odd(pre("rel3", 3, 30*m, all, 2*h, 0))),
 			// close uploads: 10 min is inside the default threshold and well outside the 1 min one
-			odd(pre("way2", 3, m, all, 2*h, 10*m, 0)),
+			inter(odd(pre("way2", 3, m, all, 2*h, 10*m, 0))),
 		}
 	}
 	return []*Space{
@@ -137,14 +142,14 @@ func spaces(quick bool) []*Space {
 		commit("way2", 6, false, 100*ms),
 		commit("way2r", 6, true, 100*ms),
 		pre("way2", 5, m, outer, 2*h, 0),
-		pre("way2", 4, m, all, 2*h, 10*m, 0),
+		inter(pre("way2", 4, m, all, 2*h, 10*m, 0)),
 		pre("way2", 5, 30*m, outer, 2*h),
 		odd(commit("way3", 4, true, h, 100*ms)),
-		odd(pre("way3", 4, m, all, 2*h, 0)),
+		inter(odd(pre("way3", 4, m, outer, 2*h, 0))),
 		commit("rel3", 4, false, 100*ms),
 		pre("rel3", 4, m, outer, 2*h, 0),
 		odd(commit("rel4", 3, true, h, 100*ms, 10*m)),
-		odd(pre("rel4", 3, 30*m, all, 2*h, 0)),
+		inter(odd(pre("rel4", 3, 30*m, all, 2*h, 0))),
 	}
 }
 
@@ -214,7 +219,7 @@ type worker struct {
 	sp      *Space
 	vars    []Variant
 	ops     []Op
-	uploads []histsim.Upload
+	uploads [][]histsim.Upload
 	w       *histsim.World
 	trace   []Op
 	hashes  []uint64
@@ -231,7 +236,7 @@ type worker struct {
 func newWorker(r *kit.Run, sp *Space, stop *int32) *worker {
 	k := &worker{r: r, sp: sp, vars: sp.variants(), ops: sp.Ops(), stop: stop}
 	for _, o := range k.ops {
-		k.uploads = append(k.uploads, sp.Upload(o))
+		k.uploads = append(k.uploads, sp.Uploads(o))
 	}
 	return k
 }
@@ -263,7 +268,9 @@ func (k *worker) reset(prefix []Op) histsim.Status {
 			kit.Fatalf("prefix op %v not enabled", o)
 		}
 		st = n
-		k.w.Apply(k.sp.Upload(o))
+		for _, u := range k.sp.Uploads(o) {
+			k.w.Apply(u)
+		}
 		k.trace = append(k.trace, o)
 		k.hashes = append(k.hashes, mix(k.hashes[len(k.hashes)-1], o.Code()))
 	}
@@ -283,14 +290,18 @@ func (k *worker) dfs(st histsim.Status, depth int, recurse bool) {
 		if !ok {
 			continue
 		}
-		k.w.Apply(k.uploads[i])
+		for _, u := range k.uploads[i] {
+			k.w.Apply(u)
+		}
 		k.trace = append(k.trace, o)
 		k.hashes = append(k.hashes, mix(k.hashes[len(k.hashes)-1], o.Code()))
-		k.transitions++
+		k.transitions += int64(len(k.uploads[i]))
 		k.dfs(n, depth+1, true)
 		k.hashes = k.hashes[:len(k.hashes)-1]
 		k.trace = k.trace[:len(k.trace)-1]
-		k.w.Undo()
+		for range k.uploads[i] {
+			k.w.Undo()
+		}
 	}
 }
 
@@ -358,8 +369,12 @@ func search(r *kit.Run, sp *Space) (states, transitions int64) {
 		k.states, k.transitions, k.calls = 0, 0, 0
 		pool.Put(k)
 	})
-	// the transitions leading to the task prefixes (each prefix but the root is one transition)
-	transitions += int64(len(tasks) - 1)
+	// the uploads leading to the task prefixes (the last op of each prefix but the root)
+	for _, t := range tasks {
+		if n := len(t.prefix); n > 0 {
+			transitions += int64(len(sp.Uploads(t.prefix[n-1])))
+		}
+	}
 	r.Add("library_calls", calls)
 	return states, transitions
 }
